@@ -86,7 +86,7 @@ func storeDump(s *drv.Server, buckets []string) string {
 
 func runC16(c *Ctx) {
 	r := c.R
-	r.SetRule("random request sequences (40-80 logical requests over the routed surface: bucket create/head/delete/list V1+V2/location/versioning/versions/uploads/multi-delete, object put/get/head/delete/copy/range/versionId, multipart initiate/part/list/complete/abort, browser POST) on buckets {alpha, beta-2} and keys incl. nested and escaped ones; each logical request is sent path-style to P, host-style to H (WithHostBucket) and to HB (WithHostBucketBase, two bases with and without port) and the three answers must be identical except request ids and the Location of CompleteMultipartUpload; fallback hosts (base itself, multi-label prefix, unrelated, IP) must be answered by HB exactly as P answers the same path; extra leading/trailing slashes must not change the addressed bucket/key; distinct = (backend, host form, request signature)")
+	r.SetRule("random request sequences (40-80 logical requests over the routed surface: bucket create/head/delete/list V1+V2/location/versioning/versions/uploads/multi-delete, object put/get/head/delete/copy/range/versionId, multipart initiate/part/list/complete/abort, browser POST) on buckets {alpha, beta-2} (one request in seven addressed to a label that is not a bucket: other letter case, a prefix or extension of a bucket name, invalid characters) and keys incl. nested and escaped ones; each logical request is sent path-style to P, host-style to H (WithHostBucket) and to HB (WithHostBucketBase, two bases with and without port) and the three answers must be identical except request ids and the Location of CompleteMultipartUpload; fallback hosts (base itself, multi-label prefix, unrelated, IP) must be answered by HB exactly as P answers the same path; extra leading/trailing slashes must not change the addressed bucket/key; distinct = (backend, host form, request signature)")
 	fixed := time.Date(2021, 3, 4, 5, 6, 7, 0, time.UTC)
 	nseq := r.Pick(300, 6000)
 	kinds := []string{drv.Mem, drv.Bolt}
@@ -113,6 +113,7 @@ func runC16(c *Ctx) {
 	r.Require("slash_variants", 1000)
 	r.Require("nested_base_requests", 5000)
 	r.Require("op_complete", 50)
+	r.Require("foreign_label_requests", 1000)
 	r.Assume("the three servers run on twin backends built with the same fixed time source and version seed; request ids, x-amz-id-2, the Location element of CompleteMultipartUploadResult and the LastModified of CopyObjectResult (wall clock) are masked",
 		"a Host with a port when the base was configured without one is not '<label>.<base>' and is only required to fall back to path-style; bucket names contain no dots")
 }
@@ -140,6 +141,7 @@ func c16Sequence(r *rep.Reporter, kind string, si int, fixed time.Time, bases []
 	defer H.Close()
 	defer HB.Close()
 	buckets := []string{"alpha", "beta-2"}
+	foreign := []string{"Alpha", "ALPHA", "Beta-2", "BETA-2", "alph", "alphaa", "aLpha", "beta-2x", "al_pha", "gamma"}
 	keys := []string{"k", "d/x", "d/e/z", "sp ace+%25?#&", "ключ", "/lead", "//dbl/lead", "lead"}
 	r.Eval(1)
 	var trace []lreq
@@ -158,6 +160,12 @@ func c16Sequence(r *rep.Reporter, kind string, si int, fixed time.Time, bases []
 	n := 40 + rng.Intn(41)
 	for step := 0; step < n && !failed; step++ {
 		b := buckets[rng.Intn(2)]
+		if rng.Intn(7) == 0 {
+			// a label that is not one of the buckets (other case, prefix, extension): the same
+			// (absent, or invalid) bucket must be addressed in every style
+			b = foreign[rng.Intn(len(foreign))]
+			r.Count("foreign_label_requests", 1)
+		}
 		k := keys[rng.Intn(len(keys))]
 		var l lreq
 		opname := ""
